@@ -187,4 +187,28 @@ def PSpaced : Bool → List PSIn → Prop
   | _, [] => True
   | pend, x :: xs => ((x.ti && x.i) = true → pend = false) ∧ PSpaced (pendNext pend x) xs
 
+/-- Drift bound on a pulse-synchroniser schedule (the `IBurst` of the bus synchroniser): never more than `R`
+    consecutive instants with an i-clock edge but no o-clock edge (`q` = length of the current run). -/
+def PBurst (R : Nat) : Nat → List PSIn → Prop
+  | _, [] => True
+  | q, x :: xs =>
+    if x.tO then PBurst R 0 xs
+    else if x.ti then q < R ∧ PBurst R (q + 1) xs
+    else PBurst R q xs
+
+/-- Pulse spacing in i-clock cycles: any two input pulses are separated by at least `n` pulse-free i-clock
+    edges, i.e. the pulse period is at least `n + 1` i-cycles (`c` = pulse-free i-edges since the last pulse). -/
+def PGap (n : Nat) : Nat → List PSIn → Prop
+  | _, [] => True
+  | c, x :: xs =>
+    if x.ti && x.i then n ≤ c ∧ PGap n 0 xs
+    else PGap n (if x.ti then c + 1 else c) xs
+
+/-- The tight schedule for drift bound `R`: a pulse on a coincident edge (first flop keeps the old value), `R`
+    pulse-free i-only edges, a second pulse on a coincident edge (first flop catches the new value = the original
+    level), then o-clock edges only. -/
+def psTight (R : Nat) : List PSIn :=
+  [⟨true, true, false, true⟩] ++ List.replicate R ⟨true, false, false, false⟩ ++
+    [⟨true, true, true, true⟩, ⟨false, true, false, false⟩, ⟨false, true, false, false⟩, ⟨false, true, false, false⟩]
+
 end Litex.Cdc
